@@ -2,17 +2,18 @@
      Map.Exists, Map.ValueForPath, Map.ValueForKey (exists.go, keyvalues.go)  - wrappers of ValuesForPath / ValuesForKey
      NewMapJsonReader, NewMapJsonReaderRaw (json.go)                          - getJson, then NewMapJson on its bytes
    ARE the model entry points.  The functions they call are Section variables of the translation; here they are
-   instantiated with the TRANSLATED callees (run_ValuesForPath, run_ValuesForKey, run_getJson), except NewMapJson
+   instantiated with the TRANSLATED callees (run_ValuesForPath - every function below it, valuesForArray included, is
+   translated code -, run_ValuesForKey, run_getJson), except NewMapJson
    (encoding/json: the environment of the reader model, an arbitrary function here as in Model/Reader.v). *)
 From Coq Require Import Lia.
 From Mxj Require Import Gen.GenSupport Gen.Setters_gen Gen.PureSupport Gen.Pure_gen Model.KeyValues Model.TreeOps Model.Reader.
-From Mxj Require Import GenProofs.PureG GenProofs.PureG2 GenProofs.PureG3 GenProofs.PureG5 GenProofs.PureG6.
+From Mxj Require Import GenProofs.PureG GenProofs.PureG2 GenProofs.PureG3 GenProofs.PureG5 GenProofs.PureG6 GenProofs.PureG9.
 
 (* ------------------------------------------------------------------ the translated callees as functions *)
 
 Definition run_ValuesForPath pf (st : gstate) (m : entries) (path : str) (subkeys : list str) : res (list value) :=
   match fn_ValuesForPath (run_getSubKeyMap pf st) (run_hasSubKeys st) (run_oldValuesForPath pf st) (run_parsePath st)
-          model_valuesForArray st m path subkeys with Ret r => r | _ => Panic end.
+          (run_valuesForArray pf st) st m path subkeys with Ret r => r | _ => Panic end.
 Definition run_ValuesForKey pf (st : gstate) (m : entries) (key : str) (subkeys : list str) : res (list value) :=
   match fn_ValuesForKey (run_getSubKeyMap pf st) (run_hasKey st) st m key subkeys with Ret r => r | _ => Panic end.
 Definition run_getJson (st : gstate) (S : list rev) : option ((str * option err) * list rev) :=
@@ -23,7 +24,7 @@ Proof. destruct r; reflexivity. Qed.
 
 Lemma run_ValuesForPath_eq pf st m path sk : g_fieldSep st <> [] ->
   run_ValuesForPath pf st m path sk = values_for_path pf (g_fieldSep st) (VMap m) path sk.
-Proof. intros H. unfold run_ValuesForPath. rewrite values_for_path_code_is_model by exact H. apply of_res_run. Qed.
+Proof. intros H. unfold run_ValuesForPath. rewrite values_for_path_code_is_model_full by exact H. apply of_res_run. Qed.
 
 Lemma run_ValuesForKey_eq pf st m key sk : g_fieldSep st <> [] ->
   run_ValuesForKey pf st m key sk = values_for_key pf (g_fieldSep st) (VMap m) key sk.
